@@ -225,3 +225,11 @@ Theorem C07_edit_keeps_inv :
     cache_inv (set_nth gs i g') c.
 Proof. exact edit_keeps_inv. Qed.
 Print Assumptions C07_edit_keeps_inv.
+
+(** NOT a clause of the property (its histories contain no edits) but worth stating: for a FILTERING engine an in-place edit leaves
+    stale histograms behind and an answer can differ from the cache-free one — the limitation the class documents
+    (witness: C-O vs C-[O-] queried, the second object edited into C-O, queried again: False instead of True) *)
+Theorem C07_edits_stale_cache_documented : exists gs es hs,
+  fst (run_hist has_mono (monos_g true) gs gs es hs []) <> hist_pure has_mono (monos_g true) gs gs es hs.
+Proof. exact edit_stale_witness. Qed.
+Print Assumptions C07_edits_stale_cache_documented.
